@@ -92,5 +92,7 @@ func C17(c *fw.Ctx) {
 	if c.Hist("verdicts")["openapi:document"] < 300 {
 		c.Inconclusive("fewer than 300 OpenAPI documents were validated")
 	}
+	// the cost of the export on documents that repeat one construct n and 4n times (scaling.go)
+	scalingMonitor(c, c.Pool(false, 8), []string{"openapi"})
 	c.Finish()
 }
